@@ -427,6 +427,19 @@ class STrueDiv(Sym):
         return id(self)
 
 
+RNE = z3.RNE()
+RTZ = z3.RTZ()
+F32 = z3.Float32()
+F64 = z3.Float64()
+
+
+def fp_const(v, sort):
+    """python int/float -> FP constant of `sort`, round-nearest-even (as NumPy 2 converts python scalars)"""
+    from fractions import Fraction
+    f = Fraction(v)
+    return z3.simplify(z3.fpRealToFP(RNE, z3.RealVal(f.numerator) / z3.RealVal(f.denominator), sort))
+
+
 class SFP(Sym):
     """IEEE float (z3 FP theory), bit exact. sort kept in the term."""
     __slots__ = ("t",)
@@ -436,6 +449,34 @@ class SFP(Sym):
 
     def __hash__(self):
         return id(self)
+
+    def _o(self, o):
+        if isinstance(o, SFP):
+            if o.t.sort() != self.t.sort():
+                raise Unsupported("mixed float widths")
+            return o.t
+        if isinstance(o, (int, float)):
+            return fp_const(o, self.t.sort())
+        raise Unsupported(f"cannot use {type(o).__name__} as FP operand")
+
+    def __lt__(self, o): return SBool(z3.fpLT(self.t, self._o(o)))
+    def __le__(self, o): return SBool(z3.fpLEQ(self.t, self._o(o)))
+    def __gt__(self, o): return SBool(z3.fpGT(self.t, self._o(o)))
+    def __ge__(self, o): return SBool(z3.fpGEQ(self.t, self._o(o)))
+    def __eq__(self, o):
+        if o is None or isinstance(o, str):
+            return False
+        return SBool(z3.fpEQ(self.t, self._o(o)))
+    def __ne__(self, o):
+        if o is None or isinstance(o, str):
+            return True
+        return SBool(z3.Not(z3.fpEQ(self.t, self._o(o))))
+
+    def rint(self):
+        return SFP(z3.fpRoundToIntegral(RNE, self.t))
+
+    def finite(self):
+        return SBool(z3.And(z3.Not(z3.fpIsNaN(self.t)), z3.Not(z3.fpIsInf(self.t))))
 
 
 def _bv(v, w):
@@ -943,6 +984,8 @@ def model_to_dict(m, c_inputs):
                 out[n] = True
             elif z3.is_false(v):
                 out[n] = False
+            elif z3.is_fp_value(v) if hasattr(z3, "is_fp_value") else False:
+                out[n] = str(v)
             elif z3.is_rational_value(v):
                 out[n] = [v.numerator_as_long(), v.denominator_as_long()]
             else:
@@ -1166,6 +1209,10 @@ _old_smin, _old_smax = smin, smax
 
 
 def smin(a, b):  # noqa: F811
+    if isinstance(a, SFP) or isinstance(b, SFP):
+        x = a if isinstance(a, SFP) else b
+        at, bt = (a.t if isinstance(a, SFP) else x._o(a)), (b.t if isinstance(b, SFP) else x._o(b))
+        return SFP(z3.If(z3.fpLT(bt, at), bt, at))
     if isinstance(a, SDyad) or isinstance(b, SDyad):
         x, y, d = SDyad.of(a)._align(b)
         return SDyad(z3.If(y < x, y, x), d)
@@ -1173,6 +1220,10 @@ def smin(a, b):  # noqa: F811
 
 
 def smax(a, b):  # noqa: F811
+    if isinstance(a, SFP) or isinstance(b, SFP):
+        x = a if isinstance(a, SFP) else b
+        at, bt = (a.t if isinstance(a, SFP) else x._o(a)), (b.t if isinstance(b, SFP) else x._o(b))
+        return SFP(z3.If(z3.fpGT(bt, at), bt, at))
     if isinstance(a, SDyad) or isinstance(b, SDyad):
         x, y, d = SDyad.of(a)._align(b)
         return SDyad(z3.If(y > x, y, x), d)
